@@ -523,13 +523,13 @@ def check_sabre(case) -> Outcome:
 
 
 # ---------------------------------------------------------------- PAM check
-_COMPILER = None     # owned by run_shard (thorough) or created for a replay
+_COMPILER = None     # owned by run_shard (thorough tier); a replay makes its own
 
 
 class _PortCompiler:
-    """A real bqskit Compiler whose attached server listens on a private
-    port (Compiler(num_workers=k) always uses the one default port, so two
-    shards could not own one each)."""
+    """A real bqskit Compiler with an attached 2-worker runtime whose server
+    listens on a private port (Compiler(num_workers=k) always starts its
+    server on the one default port, so two shards could not own one each)."""
 
     def __init__(self, num_workers: int = 2) -> None:
         import socket
@@ -558,9 +558,7 @@ class _PortCompiler:
                 )
                 self.p = Popen([sys.executable, '-c', launch])
 
-        self.compiler = C(
-            None, port, num_workers, worker_port=wport,
-        )
+        self.compiler = C(None, port, num_workers, worker_port=wport)
 
     def close(self) -> None:
         self.compiler.close()
@@ -575,53 +573,204 @@ def _pam_workflow(case, model):
     from bqskit.passes.mapping.routing.pam import PAMRoutingPass
     from bqskit.passes.mapping.setmodel import SetModelPass
     from bqskit.passes.mapping.topology import SubtopologySelectionPass
-    from bqskit.passes.partitioning.quick import QuickPartitioner
     from bqskit.passes.synthesis.leap import LEAPSynthesisPass
-    from bqskit.passes.util.record import RecordStatsPass  # noqa: F401
     lay, rt = case['layout'], case['route']
     leap = LEAPSynthesisPass(success_threshold=PAM_EPS, min_prefix_size=9)
     return Workflow([
         SetModelPass(model),
         _placement_pass(case['place']),
-        SubtopologySelectionPass(int(case['bs'])),
-        QuickPartitioner(int(case['bs'])),
-        _Snapshot('pam_blocks'),
+        SubtopologySelectionPass(max(2, int(case['bs']))),
         ForEachBlockPass(EmbedAllPermutationsPass(
             inner_synthesis=leap, input_perm=False, output_perm=True,
             vary_topology=True,
         )),
-        _Snapshot('pam_pre'),
         PAMLayoutPass(int(lay['passes']), float(lay['gcw']),
                       **_sabre_kwargs(lay)),
-        _Snapshot('pam_laid'),
         PAMRoutingPass(float(rt['gcw']), **_sabre_kwargs(rt)),
-        _Snapshot('pam_routed'),
         ApplyPlacement(),
     ])
 
 
-def _Snapshot(key: str):
-    from bqskit.compiler.basepass import BasePass
+def _remote_sig(clause: str, msg: str) -> str:
+    """Signature of an error raised inside the runtime (the client only gets
+    the formatted traceback): exception type + innermost bqskit frame."""
+    import re
+    frames = re.findall(r'File "([^"]*/bqskit/[^"]*)", line \d+, in (\S+)',
+                        msg)
+    frame = 'outside'
+    if frames:
+        frame = frames[-1][0].rsplit('/', 1)[-1] + ':' + frames[-1][1]
+    etype = 'Error'
+    for line in reversed(msg.strip().splitlines()):
+        mm = re.match(r'^([A-Za-z_][\w\.]*(Error|Exception))\b', line.strip())
+        if mm:
+            etype = mm.group(1).rsplit('.', 1)[-1]
+            break
+    return f'{clause}|{etype}|{frame}'
 
-    class Snapshot(BasePass):
-        """Harness pass: records circuit and bookkeeping between stages."""
 
-        def __init__(self, key):
-            self.key = key
+def _phase_fro(A: np.ndarray, B: np.ndarray) -> float:
+    """min over phi of ||A - e^{i phi} B||_F (bounds the operator norm)."""
+    n = A.shape[0]
+    return float(np.sqrt(max(0.0, 2.0 * n - 2.0 * abs(np.vdot(B, A)))))
 
-        async def run(self, circuit, data):
-            data['vt_' + self.key] = {
-                'circuit': circuit.copy(),
-                'placement': list(data.placement),
-                'initial': list(data.initial_mapping),
-                'final': list(data.final_mapping),
-            }
-    # defined at module level for pickling
-    return _SnapshotPass(key)
+
+def _block_synthesis_error(U: np.ndarray, k: int, perm_data) -> float:
+    """How far the worst pre-synthesised candidate of a block is from being
+    SOME qudit-permuted version (input and output side) of the block's own
+    unitary U.  Independent of how the candidates are keyed."""
+    Ut = U.reshape([2] * (2 * k))
+    variants = []
+    for p in it.permutations(range(k)):
+        for q in it.permutations(range(k)):
+            variants.append(
+                np.transpose(Ut, list(p) + [k + x for x in q])
+                .reshape(2 ** k, 2 ** k),
+            )
+    worst = 0.0
+    for graph_data in perm_data.values():
+        for cand in graph_data.values():
+            if cand.num_qudits != k:
+                return float('inf')
+            V = refsim.circuit_unitary(cand)
+            worst = max(worst, min(_phase_fro(V, W) for W in variants))
+    return worst
 
 
 def check_pam(case) -> Outcome:
-    raise core.HarnessError('PAM arm is not enabled in this build')
+    CouplingGraph, MachineModel, PassData = _imports()
+    from bqskit.passes.control.foreach import ForEachBlockPass
+    from bqskit.passes.partitioning.quick import QuickPartitioner
+
+    out = Outcome()
+    spec = case['circ']
+    radixes = list(spec['radixes'])
+    n = len(radixes)
+    m, edges = _graph_objects(case)
+    bs = int(case['bs'])
+    if set(radixes) != {2} or m < n or not G.connected(m, edges) or \
+            (case['place'] == 'trivial' and not G.connected(m, edges, range(n))):
+        raise core.HarnessError('generator broke a documented precondition')
+
+    circuit = S.build_circuit(spec)
+    # partition in-process (QuickPartitioner never awaits) so that the blocks
+    # handed to the PAM passes are known here
+    _drive(QuickPartitioner(bs), circuit, PassData(circuit))
+    cin = circuit.copy()
+    U_in = refsim.circuit_unitary(cin)
+    _common_labels(out, case, n, m, cin)
+    out.label('pam-bs:%d' % bs)
+    in_blocks = [(c, op) for c, op in refsim.grid_ops(cin)
+                 if not _is_barrier(op.gate)]
+    if any(type(op.gate).__name__ != 'CircuitGate' for _, op in in_blocks):
+        raise core.HarnessError('partitioner left a bare gate')
+    ident = list(range(n))
+
+    model = MachineModel(m, CouplingGraph(sorted(edges), m))
+    own = None
+    comp = _COMPILER
+    try:
+        if comp is None:
+            own = comp = _PortCompiler(2)
+        try:
+            res, data = comp.compiler.compile(
+                circuit, _pam_workflow(case, model), request_data=True,
+                data={'seed': int(case['seed'])},
+            )
+        except RuntimeError as e:
+            out.fail(_remote_sig('pam_workflow', str(e)), str(e)[-1500:])
+            return out
+    finally:
+        if own is not None:
+            own.close()
+
+    pi, pf = list(data.initial_mapping), list(data.final_mapping)
+    for name, mp in (('initial', pi), ('final', pf)):
+        bad = E.check_mapping(mp, n, m)
+        if bad is not None:
+            out.fail(f'pam_{name}_mapping_invalid', bad)
+            return out
+    if res.num_qudits != m or list(res.radixes) != [2] * m:
+        out.fail('pam_applied_shape', f'{res.num_qudits} {res.radixes}')
+        return out
+
+    # what was pre-synthesised for each block, and how well
+    block_datas = list(data[ForEachBlockPass.key][-1])
+    if len(block_datas) != len(in_blocks):
+        out.fail('pam_block_data_count',
+                 f'{len(block_datas)} for {len(in_blocks)} blocks')
+        return out
+    cand_keys = set()
+    budget = 0.0
+    for bd in block_datas:
+        pt = bd['point']
+        op = cin[pt.cycle, pt.qudit]
+        Ub = refsim.op_matrix(op)
+        pd = bd['permutation_data']
+        budget += _block_synthesis_error(Ub, op.num_qudits, pd)
+        for graph_data in pd.values():
+            for cand in graph_data.values():
+                cand_keys.add((
+                    tuple(
+                        (_gkey(o.gate), tuple(o.location))
+                        for _, o in refsim.grid_ops(cand)
+                    ),
+                    tuple(float(x) for x in cand.params),
+                ))
+    if not budget <= 1e-2:
+        out.label('pam:synthesis-missed-threshold')
+        return out
+    tol = TOL + 1.01 * budget
+
+    # only swaps and pre-synthesised versions of the input's blocks
+    n_swaps = 0
+    n_blocks = 0
+    for c, op in refsim.grid_ops(res):
+        if _is_swap(op.gate):
+            n_swaps += 1
+            continue
+        if _is_barrier(op.gate):
+            continue
+        if type(op.gate).__name__ != 'CircuitGate':
+            out.fail('pam_foreign_op', f'{op.gate} at {op.location}')
+            continue
+        n_blocks += 1
+        key = (
+            tuple(
+                (_gkey(o.gate), tuple(o.location))
+                for _, o in refsim.grid_ops(op.gate._circuit)
+            ),
+            tuple(float(x) for x in op.params),
+        )
+        if key not in cand_keys:
+            out.fail('pam_block_not_a_candidate', f'{op.gate} at {op.location}')
+    if n_blocks != len(in_blocks):
+        out.fail('pam_block_count', f'{n_blocks} out for {len(in_blocks)} in')
+
+    cv = _connectivity_violations(res, m, edges)
+    if cv:
+        out.fail('pam_final_op_not_connected',
+                 f'{cv[:3]} edges {sorted(edges)}')
+    inner = []
+    for g, loc, _ in T.flat_ops(res):
+        if len(loc) >= 2 and not _is_barrier(g) and \
+                not G.connected(m, edges, loc):
+            inner.append((getattr(g, 'name', '?'), loc))
+    if inner:
+        out.label('pam:inner-gate-off-coupling')
+    dev, leak = E.deviation(U_in, res, pi, pf, radixes)
+    if not (dev <= tol and leak <= tol):
+        out.fail('pam_embed_final',
+                 f'dev={dev:.3e} leak={leak:.3e} tol={tol:.2e} pi={pi} '
+                 f'pf={pf}')
+    out.nontrivial = n_swaps > 0 or pi != ident or pf != ident
+    out.label('swaps:0' if n_swaps == 0 else 'swaps:1-3' if n_swaps <= 3
+              else 'swaps:4-15' if n_swaps <= 15 else 'swaps:16+')
+    if pi != ident:
+        out.label('initial-mapping!=id')
+    if pf != pi:
+        out.label('final!=initial')
+    return out
 
 
 # ------------------------------------------------------------------ dispatch
@@ -761,10 +910,59 @@ def sabre_cases(draw, big: bool = False):
     }
 
 
+PAM_GATES_1Q = ['HGate', 'TGate', 'SXGate', 'U3Gate', 'RZGate', 'RYGate']
+PAM_GATES_2Q = ['CXGate', 'CZGate', 'CXGate', 'CZGate', 'ISwapGate',
+                'CRYGate', 'RZZGate']
+
+
+@st.composite
+def pam_cases(draw):
+    """Small qubit circuits from plain gates (so that LEAP reaches its
+    threshold in seconds), <= 4 qubits, blocks of <= 3 qubits."""
+    n = draw(st.integers(2, 4))
+    graph = draw(graph_specs(n, 5))
+    m = graph['m']
+    edges = G.norm_edges(tuple(e) for e in graph['edges'])
+    bs = 2 if n == 2 else draw(st.sampled_from([2, 2, 2, 2, 3]))
+    ops = []
+    for _ in range(draw(st.integers(2, 10 if bs == 2 else 6))):
+        k = draw(st.sampled_from([1, 2, 2]))
+        loc = list(draw(st.permutations(range(n)))[:k])
+        g = {'g': draw(st.sampled_from(PAM_GATES_1Q if k == 1
+                                       else PAM_GATES_2Q))}
+        ops.append({'gate': g, 'loc': loc,
+                    'params': draw(S.param_values(S.gate_num_params(g)))})
+    place = draw(st.sampled_from(['greedy', 'greedy', 'trivial']))
+    if place == 'trivial' and not G.connected(m, edges, range(n)):
+        place = 'greedy'
+    gcw = st.sampled_from([0.0, 0.1, 0.3, 1.0])
+    return {
+        'k': 'pam', 'circ': {'radixes': [2] * n, 'ops': ops}, 'graph': graph,
+        'place': place, 'bs': bs, 'seed': draw(st.integers(0, 2**31 - 1)),
+        'layout': dict(draw(sabre_params()), passes=draw(st.integers(1, 3)),
+                       gcw=draw(gcw)),
+        'route': dict(draw(sabre_params()), gcw=draw(gcw)),
+    }
+
+
 def run_shard(ctx: core.Ctx) -> core.ShardResult:
+    global _COMPILER
     res = core.ShardResult()
     core.run_hypothesis(ctx, res, sabre_cases(), check, ctx.n(250, 4000), sub=0)
     core.run_hypothesis(
         ctx, res, sabre_cases(big=True), check, ctx.n(40, 1000), sub=1,
     )
+    if ctx.tier == 'thorough':
+        # PAM needs synthesis and therefore the real runtime: one private
+        # 2-worker Compiler per shard, closed before the shard returns
+        pc = _PortCompiler(2)
+        _COMPILER = pc
+        try:
+            core.run_hypothesis(
+                ctx, res, pam_cases(), check, ctx.n(1, 19), sub=2,
+                max_shrink_sigs=1,
+            )
+        finally:
+            _COMPILER = None
+            pc.close()
     return res
